@@ -20,7 +20,7 @@ import (
 	"verifharness/rendergen"
 )
 
-func main() { Main("C20", checkC20, rendergen.Gen, stateGen) }
+func main() { Main("C20", checkC20, stateGen, rendergen.Gen) }
 
 func triTerm(t render.TriangleI) string {
 	return fmt.Sprintf("(%s,%s,%s)", CZ(t[0]), CZ(t[1]), CZ(t[2]))
